@@ -667,7 +667,7 @@ def ruleDateTimeDateTime(
         and d1.month == d2.month
         and d1.day == d2.day
         and d1.hour == d2.hour
-        and d1.minute >= d2.minute
+        and (d1.minute or 0) >= (d2.minute or 0)
     ):
         return None
     return Interval(t_from=d1, t_to=d2)
